@@ -36,7 +36,7 @@ def grid_jobs(tier):
             for fc, sc in ((1000, 1), (1000, 3), (400, 2), (2000, 4), (3, 3), (7, 7), (250, 1)):
                 if n * fc < d * 1000:
                     continue
-                for start in (0, rf.first_sample_of_ms(1394368230000, n, d) - 3):
+                for start in (0, rf.first_sample_of_ms(1394333998000, n, d) - 3):
                     jobs.append(("small", n, d, sc, fc, start, 0, K))
     # (b) realistic magnitude: every k within +-2 of each boundary in a window of W files
     W = 2000 if tier == "quick" else 100000
